@@ -178,6 +178,7 @@ class C03(Harness):
                 def fit(self, X, y):
                     counter[0] += 1
                     self.id_ = counter[0]
+                    self.t_ = L(y)[0]  # the target of the first training row: which step this copy was trained for
                     return self
 
                 def predict(self, X):
@@ -260,6 +261,9 @@ class C03(Harness):
         p = f.predict() if inp["fh_in_fit"] else f.predict(fh)
         out["index"] = L(p.index)
         out["values"] = L(p.values)
+        if k in ("reduce-direct", "reduce-dirrec", "reduce-multioutput") and not nb:
+            ests = getattr(f, "estimators_", None) or [getattr(f, "estimator_", None)]
+            out["first_targets"] = [getattr(e, "t_", None) for e in ests]
         if not inp["fh_in_fit"] and k not in REQUIRED_FH and len(inp["fh"]) > 1:
             # the value under a label must not depend on which other steps were requested
             singles = []
@@ -330,6 +334,16 @@ class C03(Harness):
                 P.check("index-increasing", a < b)
             for v in o["values"]:
                 P.check("finite-values", not is_nan(v) and v is not None)
+            if "first_targets" in o:
+                # the regressor answering for step h was trained on targets h steps after its windows, whatever the other steps
+                wl = inp["wl"]
+                want = [inp["y"][wl + h - 1] for h in fh]
+                ft = o["first_targets"]
+                if len(ft) == 1 and isinstance(ft[0], list):
+                    ft = ft[0]
+                P.check("value-independent-of-other-steps", len(ft) == len(want), {"what": "training targets per requested step"})
+                for a, b in zip(ft, want):
+                    P.eq("value-independent-of-other-steps", a, b, {"what": "first training target of the regressor for this step"})
             for i, sg in enumerate(o.get("singles", [])):
                 P.check("value-independent-of-other-steps", len(sg[0]) == 1)
                 if len(sg[0]) == 1:
